@@ -10,7 +10,7 @@ import (
 // defective variants of the design model, (iii) a wrong table line.
 func selfTest(ctx *core.Ctx) error {
 	// (i) corrupt one field of real records
-	h := history{{K: "stream", O: []string{"def", "defc", "freer"}}, {K: "hybrid", O: []string{"freeb", "keep", "hdef"}}, {K: "table", O: []string{"def", "freer", "keep"}}}
+	h := history{{K: "stream", O: []string{"def", "defc", "freer"}, T: fullTrailer}, {K: "hybrid", O: []string{"freeb", "keep", "hdef"}, T: fullTrailer}, {K: "table", O: []string{"def", "freer", "keep"}, T: []string{"XX"}}}
 	c := histCase{Kind: "hist", H: h, CSeed: 11, RSeed: 12}
 	good, res, err := runHist(c)
 	if err != nil {
@@ -23,7 +23,7 @@ func selfTest(ctx *core.Ctx) error {
 	stale.Probes = append([][3]int(nil), good.Probes...)
 	stale.Probes[0][2] = 1 // object 1 answered with the value of revision 1 instead of 3
 	oldTrailer := good
-	oldTrailer.Trailer = 2
+	oldTrailer.Trailer.Info, oldTrailer.Trailer.MetaInfo = 2, 2 // /Info of the older trailer leaks
 	notOpen := good
 	notOpen.Open = false
 	resurrect := good
@@ -41,7 +41,7 @@ func selfTest(ctx *core.Ctx) error {
 	lbad.Got--
 	// an encrypted rendering: a string that comes back undecrypted shows as a
 	// value no revision wrote
-	hk := history{{K: "table", O: []string{"def", "def"}}, {K: "stream", O: []string{"freeb", "defc"}}, {K: "table", O: []string{"def", "keep"}}}
+	hk := history{{K: "table", O: []string{"def", "def"}, T: fullTrailer}, {K: "stream", O: []string{"freeb", "defc"}, T: []string{}}, {K: "table", O: []string{"def", "keep"}, T: []string{"Info"}}}
 	egood, _, err := runHist(histCase{Kind: "hist", H: hk, CSeed: 21, RSeed: 22, Crypt: "aesv2"})
 	if err != nil {
 		return core.Infra("self-test: %v", err)
@@ -101,6 +101,13 @@ func selfTest(ctx *core.Ctx) error {
 	if r3.Invariant != "ExtentOK" {
 		return core.Infra("self-test: a null /Length taken as 0 (the code before 8dab642) should violate ExtentOK, got %q", r3.Invariant)
 	}
+	r4, err := ctx.TLC(core.TLCOpts{Dir: specDir, Module: "MC_XRefHistory", Cfg: "MC_XRefHistory_trailermerge.cfg", Workers: 8, Mode: "negative-control", XssMB: 512})
+	if err != nil {
+		return err
+	}
+	if r4.Invariant != "TrailerOK" {
+		return core.Infra("self-test: a reader that merges the trailers of the /Prev chain should violate TrailerOK, got %q", r4.Invariant)
+	}
 	for _, nc := range []string{"keygen0", "decmembers"} {
 		r, err := ctx.TLC(core.TLCOpts{Dir: specDir, Module: "MC_XRefHistory", Cfg: "MC_XRefHistory_" + nc + ".cfg", Workers: 8, Mode: "negative-control", XssMB: 512})
 		if err != nil {
@@ -110,15 +117,15 @@ func selfTest(ctx *core.Ctx) error {
 			return core.Infra("self-test: the defective key scope %s should violate LookupOK, got %q", nc, r.Invariant)
 		}
 	}
-	ctx.Logf("self-test (ii): offByOne tolerance violates LookupOK; strict reading of the length clause and null-length-as-0 violate ExtentOK; object key with generation 0 and decrypted object-stream members violate LookupOK in the model")
+	ctx.Logf("self-test (ii): offByOne tolerance violates LookupOK; strict reading of the length clause and null-length-as-0 violate ExtentOK; object key with generation 0 and decrypted object-stream members violate LookupOK, merged trailers violate TrailerOK in the model")
 
 	// (iii) a wrong expectation in a table line
 	exp := append([][3]int(nil), good.Probes...)
-	if tableMismatch(good, exp, len(h)) {
+	if tableMismatch(good, exp, expectedTrailer(h)) {
 		return core.Infra("self-test: correct table line reported as mismatch")
 	}
 	exp[5][2] = 2
-	if !tableMismatch(good, exp, len(h)) {
+	if !tableMismatch(good, exp, expectedTrailer(h)) {
 		return core.Infra("self-test: wrong table expectation not noticed")
 	}
 	ctx.Logf("self-test (iii): wrong table expectation noticed")
